@@ -13,6 +13,14 @@ open Desper Desper.Loop
   oldest first; `deltas last rs` is what the property demands: `0` first if there is no previous
   reading, then differences of consecutive readings; `Idle s` is what holds between the top-level
   operations of any test program (well-formed, not running, no remembered reading).
+
+  Reading domain: `Frame.reading : Int` — ALL integers.  No theorem below assumes that the readings
+  are small, non-negative or non-decreasing: `C14_dt` and `C14_telescopes` hold for nanosecond
+  clocks far above 2^53, for negative readings and for clocks that step backwards (the delta is then
+  the negative difference).  The difference is exact integer subtraction; on the implementation
+  side the correspondence feeds the same integers as floats r/8, as Python ints of any size and as
+  exact Fractions r/7 and compares the delta handed to `process` with the difference of the two
+  readings as exact rationals, never through float (scenario line `clock f8|int|frac`).
 -/
 
 /-- The deltas passed to `process` between a `start` and its return are `0, r₁−r₀, r₂−r₁, …` for the
@@ -40,7 +48,11 @@ example : (start Ex.U 10 Ex.s0 [⟨8, []⟩, ⟨10, [.none, .switch 1 false true
     frameDts (start Ex.U 10 Ex.s0 [⟨8, []⟩, ⟨10, [.none, .switch 1 false true]⟩, ⟨15, []⟩,
       ⟨15, [.raiseQuit]⟩]).1.log = [0, 2, 5, 0] := by decide
 
-/-- No elapsed time is lost or counted twice: the deltas of a start add up to the difference between
+example : frameDts (start Ex.U 10 Ex.s0 [⟨1700000000123456789, []⟩, ⟨1700000000140123456, []⟩,
+      ⟨1700000000140123457, []⟩, ⟨-5, []⟩, ⟨9007199254740993, [.raiseQuit]⟩]).1.log
+    = [0, 16666667, 1, -1700000000140123462, 9007199254740998] := by decide
+
+/-- No elapsed time is lost or counted twice (for every integer reading sequence, see the header): the deltas of a start add up to the difference between
 the last and the first reading it consumed. -/
 theorem C14_telescopes (U : Universe) (fuel : Nat) (s s' : St) (frames : List Frame) (o : Outcome)
     (wf : WF s) (hlast : s.last = none) (h : start U fuel s frames = (s', o)) :
@@ -52,6 +64,10 @@ theorem C14_telescopes (U : Universe) (fuel : Nat) (s s' : St) (frames : List Fr
   rw [h3, hlast, hr, deltas_sum_none]
 
 example : lastReading 8 [10, 15, 15] - 8 = ([0, 2, 5, 0] : List Int).sum := by decide
+
+example : lastReading 1700000000123456789 [1700000000140123456, -5, 9007199254740993]
+      - 1700000000123456789
+    = ([0, 16666667, -1700000000140123461, 9007199254740998] : List Int).sum := by decide
 
 /-- One iteration reads the clock once, remembers the reading whatever happens later in the frame,
 and calls `process` of the current world exactly once, with `dt = 0` if no reading is remembered
